@@ -147,3 +147,125 @@ class RenameMissingParent(Harness):
 
         err = run(go(), timeout=60)
         return {"observed": err, "clause": "RENAME is answered with OK (creating the superior names) or NO, not with an unhandled exception"} if err else None
+
+
+class RenameSubtree(Harness):
+    """C17 (c): RENAME moves a mailbox and its whole subtree with messages, UIDs and flags -- checked by reading the messages back."""
+
+    scope = "tree proj(2 msgs)/sub(3)/deep(1) + other(1); RENAME of the root, of the middle node and of a leaf to new names; every message of the subtree is fetched by UID before and after (subject, flags), then a message is appended to each moved mailbox and must land in its own directory"
+    exhaustive = False
+
+    def inputs(self, tier, seed):
+        for src, dst in (("proj", "work"), ("proj/sub", "proj/moved"), ("proj/sub/deep", "leaf"), ("proj/sub", "other/in"), ("proj", "other/p")):
+            yield {"src": src, "dst": dst}
+
+    def check(self, inp):
+        async def snapshot(w, name, tag):
+            s = w.session(tag)
+            sel = await s.cmd(f'SELECT "{name}"')
+            if not any(re.match(r"\S+ OK", l) for l in sel[-1:]):
+                return None
+            uids = uids_of(await s.cmd("UID SEARCH ALL"))
+            out = {}
+            for u in uids:
+                try:
+                    f = "".join(await s.cmd(f"UID FETCH {u} (FLAGS BODY.PEEK[HEADER.FIELDS (SUBJECT)])"))
+                except Exception as e:  # noqa: BLE001
+                    out[u] = f"<unreadable: {type(e).__name__}: {e}>"
+                    s = w.session(tag + "x")
+                    await s.cmd(f'SELECT "{name}"')
+                    continue
+                m = re.search(r"[Ss]ubject: ([^\r\n]*)", f)
+                fl = re.search(r"FLAGS \(([^)]*)\)", f)
+                out[u] = ((m.group(1).strip() if m else "<no subject>"), sorted(x for x in (fl.group(1).split() if fl else []) if x != "\\Recent"))
+            await s.cmd("CLOSE")
+            return out
+
+        async def go():
+            tree = {"inbox": 1, "proj": 2, "proj/sub": 3, "proj/sub/deep": 1, "other": 1}
+            async with World(tree) as w:
+                a = w.session("a")
+                await a.cmd("SELECT inbox")
+                # distinguishable flags
+                b = w.session("b")
+                await b.cmd('SELECT "proj/sub"'); await b.cmd("STORE 2 +FLAGS (\\Flagged kw)"); await b.cmd("CLOSE")
+                src, dst = inp["src"], inp["dst"]
+                members = [n for n in tree if n == src or n.startswith(src + "/")]
+                before = {}
+                for i, n in enumerate(members):
+                    before[n] = await snapshot(w, n, f"s{i}")
+                out = await a.cmd(f'RENAME "{src}" "{dst}"')
+                if not re.match(r"\S+ OK", out[-1]):
+                    return f"RENAME {src} {dst} refused: {out[-1].strip()}"
+                for i, n in enumerate(members):
+                    moved = dst + n[len(src):]
+                    after = await snapshot(w, moved, f"t{i}")
+                    if after != before[n]:
+                        return f"{n!r} -> {moved!r}: messages before {before[n]} after {after}"
+                    c = w.session(f"c{i}")
+                    r = await c.cmd(f'APPEND "{moved}" {{28}}\r\nSubject: appended\r\n\r\nbody\r\n\r\n')
+                    if not re.match(r"\S+ OK", r[-1]):
+                        return f"APPEND to moved mailbox {moved!r} refused: {r[-1].strip()}"
+                    files = sorted(p.name for p in (w.maildir / moved).iterdir() if p.name.isdigit())
+                    if len(files) != len(before[n]) + 1:
+                        return f"after APPEND to {moved!r} its directory holds {files} (had {len(before[n])} messages)"
+                return None
+
+        err = run(go(), timeout=120)
+        return {"observed": err, "clause": "RENAME moves a mailbox and its whole subtree with messages, UIDs and flags"} if err else None
+
+
+def ref_list_match(pattern: str, name: str) -> bool:
+    """RFC 3501 6.3.8: '*' matches zero or more characters, '%' zero or more characters other than the hierarchy delimiter."""
+    from functools import lru_cache
+
+    @lru_cache(None)
+    def m(i, j):
+        if i == len(pattern):
+            return j == len(name)
+        c = pattern[i]
+        if c == "*":
+            return any(m(i + 1, k) for k in range(j, len(name) + 1))
+        if c == "%":
+            k = j
+            while True:
+                if m(i + 1, k):
+                    return True
+                if k < len(name) and name[k] != "/":
+                    k += 1
+                else:
+                    return False
+        return j < len(name) and name[j] == c and m(i + 1, j + 1)
+
+    return m(0, 0)
+
+
+class ListPatterns(Harness):
+    """C17 (e): LIST/LSUB wildcards -- the regular expression the server builds from a pattern against an independent matcher."""
+
+    scope = "every pattern over {a, b, /, %, *} up to length 4 (quick) / 5 (thorough) that os.path.normpath leaves unchanged, against every name over {a, b, /} up to length 4 without empty components"
+    exhaustive = True
+
+    def inputs(self, tier, seed):
+        yield {"max_len": 4 if tier == "quick" else 5}
+
+    def check(self, inp):
+        import itertools
+
+        from asimap.mbox import Mailbox
+
+        names = ["".join(t) for n in range(1, 5) for t in itertools.product("ab/", repeat=n)]
+        names = [n for n in names if not n.startswith("/") and not n.endswith("/") and "//" not in n]
+        for n in range(1, inp["max_len"] + 1):
+            for t in itertools.product("ab/%*", repeat=n):
+                pat = "".join(t)
+                if pat.startswith("/") or os.path.normpath(pat) != pat:
+                    continue
+                rx = re.compile(Mailbox._mbox_pattern_to_re("", pat))
+                for name in names:
+                    got = rx.search(name) is not None
+                    want = ref_list_match(pat, name)
+                    if got != want:
+                        return {"observed": {"pattern": pat, "name": name, "server_matches": got, "rfc_matches": want, "regex": rx.pattern},
+                                "clause": "LIST and LSUB wildcards match exactly the names RFC 3501 says"}
+        return None
